@@ -600,6 +600,8 @@ def _r1(ctx):
         for i, a in enumerate(c.args):
             if i < len(tf.params):
                 binding[tf.params[i]] = a
+        if any(k.arg is None for k in c.keywords) or any(isinstance(a_, ast.Starred) for a_ in c.args):
+            raise AnalysisError("accessor method %s: the arguments of %s are passed through */** that could not be resolved" % (name, target))
         for k in c.keywords:
             binding[k.arg] = k.value
         for p in tf.params:
